@@ -64,6 +64,16 @@ public:
   /// See class-level documentation for the ordering invariant.
   virtual ConnectResult connect(const std::string &host, std::uint16_t port,
                                 TlsMode tlsMode) = 0;
+  /// \brief connect() to an address the caller has ALREADY RESOLVED, on behalf of the
+  /// host name \p tlsServerName: a TLS engine sends that name as SNI and, with peer
+  /// verification on, requires the certificate to be issued for it. Same enqueue-only
+  /// contract as connect(). Default: the name is ignored (engines without TLS).
+  virtual ConnectResult connectWithTlsName(const std::string &host, std::uint16_t port,
+                                           TlsMode tlsMode, const std::string &tlsServerName)
+  {
+    (void)tlsServerName;
+    return connect(host, port, tlsMode);
+  }
   virtual ConnectResult connectViaListener(ListenerId lid, const std::string &host,
                                            std::uint16_t port) = 0;
   virtual bool close(SessionId sid) = 0;
